@@ -62,19 +62,54 @@ def check(chk):
     if len(first) != 1 or len(second) != 1:
         raise AnalysisError('TokenAwarePolicy.make_query_plan: loops not recognised (%d/%d)' % (len(first), len(second)))
 
+    class _Cond(object):
+        """the yield behaviour of a loop body as a decision tree: how often the loop variable is yielded in one iteration, for a given valuation of the atoms"""
+        def __init__(self, loop, var):
+            self.loop, self.var = loop, var
+            self.tests = []
+            self._scan(loop.body)
+
+        def _scan(self, stmts):
+            for st in stmts:
+                if isinstance(st, ast.If):
+                    self.tests.append(st.test)
+                    self._scan(st.body)
+                    self._scan(st.orelse)
+                elif isinstance(st, ast.Expr) and isinstance(st.value, ast.Yield) and src(st.value.value) == self.var:
+                    pass
+                elif isinstance(st, (ast.Continue, ast.Pass)):
+                    pass
+                else:
+                    raise AnalysisError('loop over %s: statement `%s` is not part of an if / continue / yield %s decision' % (src(self.loop.iter), src(st)[:50], self.var))
+
+        def count(self, env):
+            def run(stmts):
+                n = 0
+                for st in stmts:
+                    if isinstance(st, ast.If):
+                        r = run(st.body if evaluate(st.test, env) else st.orelse)
+                        if r is None:
+                            return None if n == 0 else -n - 1000
+                        if isinstance(r, tuple):
+                            return (n + r[0],)
+                        n += r
+                    elif isinstance(st, ast.Continue):
+                        return (n,)
+                    elif isinstance(st, ast.Expr):
+                        n += 1
+                return n
+            r = run(self.loop.body)
+            return r[0] if isinstance(r, tuple) else r
+
     def yield_cond(loop, var):
-        if len(loop.body) == 1 and isinstance(loop.body[0], ast.If) and not loop.body[0].orelse:
-            i = loop.body[0]
-            if len(i.body) == 1 and isinstance(i.body[0], ast.Expr) and isinstance(i.body[0].value, ast.Yield) and src(i.body[0].value.value) == var:
-                return i.test
-        raise AnalysisError('loop over %s is not `if cond: yield %s`' % (src(loop.iter), var))
+        return _Cond(loop, var)
     v1, v2 = src(first[0].target), src(second[0].target)
     c1 = yield_cond(first[0], v1)
     c2 = yield_cond(second[0], v2)
     # every term of a loop's condition is about the host that loop is looking at
     chk.rule('C22.subject', 'each loop measures is_up / distance / membership of its own loop variable')
     for lp_, var_, cond_ in ((first[0], v1, c1), (second[0], v2, c2)):
-        stale = sorted(set(src(x) for x in ast.walk(cond_) if isinstance(x, ast.Name) and x.id in (v1, v2) and x.id != var_))
+        stale = sorted(set(src(x) for t_ in cond_.tests for x in ast.walk(t_) if isinstance(x, ast.Name) and x.id in (v1, v2) and x.id != var_))
         chk.judge(not stale, 'C22.subject', lp_, 'loop over %s tests only `%s`' % (src(lp_.iter)[:40], var_),
                   'the condition reads %s, the variable of the other loop (left over from its last iteration): whether a host of the wrapped plan is yielded depends on the last replica, '
                   'so remote replicas are dropped or local ones repeated' % stale)
@@ -82,14 +117,14 @@ def check(chk):
             return
     for in_rep, is_up, dist in itertools.product((True, False), (True, False), ('LOCAL', 'REMOTE')):
         env = {'in_replicas': in_rep, 'is_up': is_up, 'dist': dist}
-        y1 = evaluate(c1, dict(env, var=v1)) if in_rep else False
-        y2 = evaluate(c2, dict(env, var=v2))
-        n = int(bool(y1)) + int(bool(y2))
+        y1 = c1.count(dict(env, var=v1)) if in_rep else 0
+        y2 = c2.count(dict(env, var=v2))
+        n = int(y1) + int(y2)
         label = 'host of the wrapped plan: replica=%s is_up=%s distance=%s' % (in_rep, is_up, dist)
         chk.judge(n == 1, 'C22.partition', f, label,
                   '%s is yielded %s (first loop: %s, second loop: %s)' % (label, 'twice' if n == 2 else 'by neither loop: it is lost from the plan', y1, y2))
     for is_up, dist in itertools.product((True, False), ('LOCAL', 'REMOTE', 'IGNORED')):
-        y1 = evaluate(c1, {'in_replicas': True, 'is_up': is_up, 'dist': dist, 'var': v1})
+        y1 = c1.count({'in_replicas': True, 'is_up': is_up, 'dist': dist, 'var': v1})
         chk.judge(bool(y1) == (is_up and dist == 'LOCAL'), 'C22.first', first[0], 'first loop, replica is_up=%s distance=%s -> %s' % (is_up, dist, 'yield' if y1 else 'skip'),
                   'the first loop must yield exactly the replicas that are up and LOCAL')
     # order: first loop precedes the second in the same block
